@@ -361,11 +361,15 @@ class Harness(object):
         if want.args.posonlyargs and got is not None:
             classify = KF_POSONLY
         if '__signature__' in getattr(lam, '__dict__', {}) and got is not None:
-            # known finding iff the substitution disappears once the foreign __signature__ attribute is taken away
+            # known finding iff the SILENT substitution disappears once the foreign __signature__ attribute is taken
+            # away: parse_entity then returns the creating lambda, or refuses explicitly (e.g. its ambiguity error
+            # when a neighbour has the same own signature) -- nothing wider
             saved = lam.__dict__.pop('__signature__')
             try:
                 if ast.dump(parser.parse_entity(lam, ())[0]) == ast.dump(want):
                     classify = KF_SIGOVERRIDE
+            except self.errors.UnsupportedLanguageElementError:
+                classify = KF_SIGOVERRIDE
             except Exception:   # noqa
                 pass
             finally:
